@@ -8,7 +8,7 @@ from geolib import Gen, Obj
 from proto import ET
 
 ID = "C02"
-LEAN_FILES = ["Geo/Props/C02.lean"]
+LEAN_FILES = ["Geo/Props/C02.lean", "Geo/Props/C01b.lean"]
 RULE = ("the 12 join/meet scenarios with the degenerate stream as main stream: equal / proportional arguments, incident "
         "(point on line, line in plane, third element in the span), skew / identical 3-D lines, zero vectors, the same Python "
         "object twice, mixed collections (mask compared position by position); thorough: exhaustive over small integer lattices; "
